@@ -133,11 +133,16 @@ func (br *xmpReader) readAttrValue(tag *Tag) (buf []byte, err error) {
 			delim := buf[1]
 			if b := bytes.IndexByte(buf[i:], delim); b >= 0 {
 				i += b
+				if i+2 >= len(buf) && len(buf) == s {
+					// what follows the closing quote lies beyond the window: look further
+					s += maxTagValueSize
+					continue
+				}
 				d = i + 1
-				if buf[i+1] == '>' {
+				if i+1 < len(buf) && buf[i+1] == '>' {
 					d++
 					br.a = false
-				} else if buf[i+1] == '/' && buf[i+2] == '>' {
+				} else if i+2 < len(buf) && buf[i+1] == '/' && buf[i+2] == '>' {
 					d += 2
 					tag.t = soloTag
 					br.a = false
@@ -170,6 +175,14 @@ func (br *xmpReader) readTagHeader(parent Tag) (tag Tag, err error) {
 		// Find Start of Tag
 		for ; i < len(buf); i++ {
 			if buf[i] == '<' {
+				if len(buf)-i < maxTagHeaderSize && len(buf) == s {
+					// the tag header may continue beyond the window: look further
+					break
+				}
+				if i+1 >= len(buf) {
+					err = errors.Wrap(io.ErrUnexpectedEOF, "Tag Header")
+					return
+				}
 				if buf[i+1] == '/' {
 					tag.t = stopTag
 					i += 2
@@ -185,8 +198,11 @@ func (br *xmpReader) readTagHeader(parent Tag) (tag Tag, err error) {
 			}
 		}
 		// large white spaces in xmp files
-
-		s += maxTagHeaderSize
+		if i < len(buf) {
+			s = i + maxTagHeaderSize
+		} else {
+			s += maxTagHeaderSize
+		}
 	}
 end:
 	var d int
@@ -200,7 +216,7 @@ end:
 		d++
 	} else if isWhiteSpace(buf[d]) { // Attributes
 		br.a = true
-	} else if buf[d] == '/' && buf[d+1] == '>' { // SoloTag
+	} else if buf[d] == '/' && d+1 < len(buf) && buf[d+1] == '>' { // SoloTag
 		br.a = false // No Attributes
 		tag.t = soloTag
 		d += 2
